@@ -4,7 +4,6 @@ import (
 	"fmt"
 	"go/token"
 	"go/types"
-	"os"
 	"sort"
 	"strings"
 
@@ -616,11 +615,6 @@ func runRoots(c *core.Ctx) {
 		{"drop:old", "an untagged entry older than the grace period is not a root when untagged collection is on", mk(int(atomU), 1, int(atomT), -1, int(atomS), -1, int(atomG), 1, int(atomK), 1, int(atomR), -1), false, "exact"},
 	}
 	sort.SliceStable(outs, func(i, j int) bool { return outs[i].lits.String() < outs[j].lits.String() })
-	if os.Getenv("OLACHECK_DEBUG_ROOTS") != "" {
-		for _, o := range outs {
-			fmt.Printf("ROOTS path [%s] appended=%v last=%s\n", o.lits, o.appended, c.P.Pos(o.last))
-		}
-	}
 	for _, q := range reqs {
 		var bad *outcome
 		nCons := 0
